@@ -94,3 +94,33 @@ R.contract(f'{TC}.run',
         'submit_task': [C("arg_use_cache or subset(deps(arg_task), state.FIN)", 'START: a task is handed to the runner only after all its dependencies finished', serves=('C02',))],
     },
     )
+
+# ------------------------------------------------------------------ Lab
+R.contract('labtech.lab:check_tasks', params={'tasks': 'List[Inst]'}, trusted=True, raises={}, frame=[],
+    note='argument validation; the properties quantify over genuine task objects, for which it never raises')
+R.contract(f'{TC}.__init__', self_type='Obj[TaskCoordinator]',
+    params={'lab': 'Obj[Lab]', 'bust_cache': 'Bool', 'disable_progress': 'Bool', 'disable_top': 'Bool',
+            'top_format': 'Str', 'top_sort': 'Str', 'top_n': 'Int'},
+    binds_fields={'lab': 'lab'},
+    ensures=["self.bust_cache == bust_cache"], frame=['self.*'], trusted=True,
+    note='plain field assignments')
+
+R.cls(LAB, fields=R.classes[LAB].fields, ghost={'LAST_SUCC': 'Set[Task]', 'LAST_ALL': 'Set[Task]', 'LAST_FIN': 'Set[Task]', 'LAST_HELD': 'Set[Task]'})
+R.contract(f'{LAB}.run_tasks',
+    self_type='Obj[Lab]',
+    params={'tasks': 'List[Inst]', 'bust_cache': 'Bool', 'disable_progress': 'Bool', 'disable_top': 'Bool',
+            'top_format': 'Str', 'top_sort': 'Str', 'top_n': 'Int'},
+    defaults={'bust_cache': False, 'disable_progress': False, 'disable_top': False, 'top_format': '', 'top_sort': '', 'top_n': 10},
+    returns='Map[Task,Val]',
+    ensures=[
+        C("forall('Task', lambda t: (t in result) == ((t in REQ(tasks)) and (t in self.LAST_SUCC)))", 'keys: exactly the requested tasks that succeeded (all of them when nothing fails)', serves=('C01', 'C10')),
+        C("forall('Task', lambda t: implies(t in result, result[t] == EVAL(t)))", 'each value is the task\'s own reference value', serves=('C01',)),
+        C("self.LAST_FIN == self.LAST_ALL", 'every planned task was run to completion or failure', serves=('C10', 'C11')),
+        C("empty(self.LAST_HELD)", 'no in-memory results survive the call', serves=('C17',)),
+    ],
+    raises={'LabError': [C("not self.continue_on_failure", 'raises LabError only when failures are not tolerated', serves=('C10',))],
+            'KeyboardInterrupt': []},
+    serves=('C10',),
+    ghost_at_exit={'self.LAST_SUCC': 'coordinator.RUN_SUCC', 'self.LAST_ALL': 'coordinator.RUN_ALL', 'self.LAST_FIN': 'coordinator.RUN_FIN', 'self.LAST_HELD': 'coordinator.RUN_HELD'},
+    cand_locals=('coordinator',),
+    frame=['Inst.result_meta'])
